@@ -503,12 +503,21 @@ func keepaliveScenarios(tier string) []weighted {
 					add(kcfg{mode: m, exec: e, ws: ws, gaps: gl, p: p, d: d})
 					// the same list with a handler that takes virtual time (3 of 7 s / 2 of 4 s): the
 					// keep-alive time must count from the end of the exchange
-					if len(gl) == 1 || (len(gl) == 2 && m == ekit.LT && (thorough || gl[0] < 7)) {
+					if (len(gl) == 1 && (thorough || !ws || m == ekit.LT)) || (len(gl) == 2 && m == ekit.LT && (thorough || (gl[0] == 3 || (gl[0] == 0 && gl[1] != 8)))) {
 						work := 3
 						if ws {
 							work = 2
 						}
-						add(kcfg{mode: m, exec: e, ws: ws, gaps: gl, work: work, p: p, d: d})
+						// (with the quick tier's bounds in both tiers: the sleeping handler adds a thread
+						// that is enabled throughout the exchange)
+						wp, wd := 0, 1
+						if !ws && len(gl) == 1 && (thorough || m == ekit.LT) {
+							wp = 1
+						}
+						if thorough && ws && len(gl) == 2 {
+							continue
+						}
+						add(kcfg{mode: m, exec: e, ws: ws, gaps: gl, work: work, p: wp, d: wd})
 					}
 				}
 			}
